@@ -505,3 +505,29 @@ package deflate
 //@ globalinv[C01 eob-token] uint32(endOfBlock) == 256 | 30<<10
 //@ globalinv[C01 hclen-order] len(hclenOrder) == 19 && (forall i :: 0 <= i && i < 19 ==> hclenOrder[i] < 19)
 //@ globalinv[C01 C19 disttable] len(disttable) == 32 && (forall s :: 0 <= s && s < 30 ==> disttable[s] == distBase(uint32(s)))
+
+// ---------------------------------------------------------------------------
+// Huffman-only encoder
+// ---------------------------------------------------------------------------
+
+// literal and end-of-block codes in |code|length<<24| form (no expandCodes in the Huffman-only path)
+//@ pure histLitOK(h *histogram) bool = forall x :: 0 <= x && x < 257 ==> preEntryOK(h.literalCodes[x])
+
+//@ func encodeBytes
+//@   requires hist != nil && buf != nil && bufOK(buf) && buf.idx + 8 <= len(buf.output) && len(buf.output) <= 1073741824 && len(data) > 0 && len(data) <= 1073741824 && histLitOK(hist)
+//@   modifies buf.idx, buf.bits, buf.bitLen, buf.output[*]
+//@   ensures[C01 C14 progress] 0 <= num && num <= len(data)
+//@   ensures[C01 C14 buf-inv] bufOK(buf) && buf.idx <= len(buf.output) && (num == len(data) ==> buf.idx + 8 <= len(buf.output))
+//@   ensures@2[C01 C10 eob-iff-tail] num < len(data)
+//@   ensures@3[C01 C10 eob-iff-tail] num == len(data)
+//@   loop 1 invariant[cfg:generic] 0 <= num && num <= len(data) && num <= endOfData + 2 && endOfData == len(data) - 3 && 0 <= idx && idx < end && end == len(output) - 16 && sameobj(output, buf.output) && len(output) == len(buf.output) && same(buf.output) && 0 <= bitLen && bitLen < 8 && bits>>uint64(bitLen) == 0
+//@   loop 2 invariant[cfg:generic] 0 <= i && i <= size && size == bitLen/8 && 0 <= bitLen && bitLen <= 52 && 0 <= idx && idx < end && end == len(output) - 16 && sameobj(output, buf.output) && len(output) == len(buf.output) && same(buf.output) && bits>>uint64(bitLen - 8*i) == 0 && 0 <= num && num <= len(data) && endOfData == len(data) - 3
+//@   loop 3 invariant[cfg:generic] 0 <= num && num <= len(data) && num + 3 >= len(data) && 0 <= idx && idx < end && end == len(output) - 16 && sameobj(output, buf.output) && len(output) == len(buf.output) && same(buf.output) && 0 <= bitLen && bitLen <= 7 + 15*(3 - (len(data) - num)) && bits>>uint64(bitLen) == 0
+//@   loop 4 invariant[cfg:generic] 0 <= i && i <= size && size == bitLen/8 && 0 <= bitLen && bitLen <= 52 && 0 <= idx && idx < end && end == len(output) - 16 && sameobj(output, buf.output) && len(output) == len(buf.output) && same(buf.output) && bits>>uint64(bitLen - 8*i) == 0 && num == len(data)
+//@   loop 1 invariant[cfg:amd64] 0 <= num && num <= len(data) && num <= endOfData + 2 && endOfData == len(data) - 3 && 0 <= idx && idx < end && end == len(output) - 16 && sameobj(output, buf.output) && len(output) == len(buf.output) && same(buf.output) && 0 <= bitLen && bitLen < 8 && bits>>uint64(bitLen) == 0
+//@   loop 2 invariant[cfg:amd64] 0 <= num && num <= len(data) && num + 3 >= len(data) && 0 <= idx && idx < end && end == len(output) - 16 && sameobj(output, buf.output) && len(output) == len(buf.output) && same(buf.output) && 0 <= bitLen && bitLen <= 7 + 15*(3 - (len(data) - num)) && bits>>uint64(bitLen) == 0
+
+//@ func bytesFreq
+//@   requires hist != nil
+//@   modifies hist.literalCodes
+//@   loop 2 invariant 0 <= j && j <= len(input)
